@@ -466,6 +466,7 @@ class Runner:
     self.obs = []
     self.blocks = []      # per scope: getter snapshots before / after
     self.depth_stack = []
+    self.timeit_blocks = []
 
   def snapshot(self):
     return {m: self.lib.get(m) for m in self.managers}
@@ -526,13 +527,21 @@ class Runner:
         elif name == 'timeit':
           cm = self.lib.enter(name, arg)
           self.lib.tls.timeit_active.append(cm)
+          rec['timeit_index'] = len(self.blocks) - 1
+          rec['timeit_parent'] = self.timeit_blocks[-1] if self.timeit_blocks else None
+          self.timeit_blocks.append(rec['timeit_index'])
           try:
             with cm:
               rec['entered'] = True
               rec['inside'] = self.lib.get(name)
               self.run(body)
           finally:
+            self.timeit_blocks.pop()
             self.lib.tls.timeit_active.pop()
+            try:
+              rec['status_keys'] = sorted(cm.status().keys())     # public: nested scopes as 'outer.inner'
+            except RecursionError:
+              rec['status_keys'] = None
         else:
           with self.lib.enter(name, arg):
             rec['entered'] = True
@@ -1017,6 +1026,18 @@ class C17(Prop):
             return {'signature': 'not-effective:%s' % m,
                     'what': 'thread %d: inside `with %s(%s)` the getter gives %s; documented nesting rule over the '
                             'outer value %s gives %s' % (tid, m, json.dumps(b['arg']), b['inside'], b['before'][m], exp[1])}
+    # timing scopes: a scope entered inside another one is registered under it ('outer.inner' in
+    # the public status() of the outer scope) — the nesting rule of pg.timeit
+    for tid, blocks in enumerate(out['blocks']):
+      for b in blocks:
+        if b['mgr'] == 'timeit' and b.get('entered') and b.get('timeit_parent') is not None:
+          par = blocks[b['timeit_parent']]
+          keys = par.get('status_keys')
+          want = '%s.%s' % (par['arg']['a'], b['arg']['a'])
+          if keys is not None and want not in keys:
+            return {'signature': 'timeit-child-not-registered',
+                    'what': 'thread %d: pg.timeit(%r) entered inside pg.timeit(%r), but status() of the outer scope '
+                            'has no key %r: %s' % (tid, b['arg']['a'], par['arg']['a'], want, keys)}
     # a thread that starts while another one is inside scopes sees the same defaults as the first
     t0 = out['model']['threads'][0]['before']
     for tid, t in enumerate(out['model']['threads'][1:], 1):
